@@ -179,9 +179,10 @@ class Disagreement(Exception):
 
 from machine_approx import ApproxOps
 from machine_trunc import TruncOps
+from machine_hetero import HeteroOps
 
 
-class Machine(ApproxOps, TruncOps):
+class Machine(ApproxOps, TruncOps, HeteroOps):
     """One program = one sequence of instructions over registers."""
 
     def __init__(self, label=""):
